@@ -206,7 +206,7 @@ def ppo_loss(
     )
 
 
-@partial(nnx.jit, static_argnames="epochs")
+@partial(nnx.jit, static_argnames=("epochs", "n_envs"))
 def update_ppo(
     actor: StochasticPolicyBase,
     critic: nnx.Module,
@@ -218,6 +218,7 @@ def update_ppo(
     terminated: jnp.ndarray,
     next_value: jnp.ndarray,
     epochs: int = 1,
+    n_envs: int = 1,
 ) -> jnp.ndarray:
     """Updates the PPO agent.
 
@@ -239,15 +240,26 @@ def update_ppo(
         Array of predicted next_values per step.
     epochs : int, optional
         Number of training epochs.
+    n_envs : int, optional
+        Number of parallel environments the (environment-major) rows stem from.
 
     Returns
     -------
     loss_val : jnp.ndarray
         Calculated loss.
     """
-    advs, returns = compute_gae(
-        reward, critic(observation).flatten(), next_value, terminated
+    # Rows are ordered environment-major (see collect_trajectories): estimate
+    # advantages per environment so that they do not leak across environments.
+    def per_env(x):
+        return x.reshape(n_envs, -1)
+
+    advs, returns = jax.vmap(compute_gae)(
+        per_env(reward),
+        per_env(critic(observation).flatten()),
+        per_env(next_value),
+        per_env(terminated),
     )
+    advs, returns = advs.reshape(-1), returns.reshape(-1)
     logp = actor.log_probability(observation, action)
     loss_grad_fn = nnx.value_and_grad(ppo_loss, argnums=(0, 1))
 
@@ -356,6 +368,7 @@ def train_ppo(
             terminated,
             next_value,
             epochs,
+            envs.num_envs,
         )
 
         if logger is not None:
